@@ -40,25 +40,30 @@ def uniq_cases(values):
     return out
 
 
+def prog_name(P):
+    return "%s:%s" % (P["hdr"]["name"] or "none", "/".join(P["pn"][0]) if P["pn"] else "-") + (":" + "+".join(f for f in P["flag"] if f) if P["flag"] else "")
+
+
+# quick-tier caps per program (BFS depth 1 generates every pool invocation; the quick tier runs a seeded sample)
+CAPS = {"App1": 220, "App2": 400, "App3": 220, "App4": 150, "none": 100, "App5": 100}
+
+
 def generate(ctx, quick, rnd):
-    jobs = []   # (key, cfg kwargs, tlc kwargs, cap)
-    # (1) BFS depth 1: every invocation of the pools on the initial sandbox, per program
-    bfs = [("ProgSmall1", 0), ("ProgMixed3", 0), ("ProgTwo2", 0), ("ProgUneval1", 0), ("ProgEmpty1", 0), ("ProgNoProd1", 0),
-           ("ProgClash", 0), ("ProgSmall3", 0), ("ProgTwo4", 0)]
-    if quick:
-        bfs = [("ProgSmall1", 500), ("ProgMixed3", 700), ("ProgTwo2", 400), ("ProgUneval1", 250), ("ProgEmpty1", 150),
-               ("ProgNoProd1", 150), ("ProgClash", 200), ("ProgSmall3", 250), ("ProgTwo4", 250)]
-    for progs, cap in bfs:
-        jobs.append((("bfs", progs), dict(progs=progs, depth=1, mode="bfs"), dict(workers=1, timeout=1800), cap))
-    # (2) the same place written twice / new and back
-    for progs in ["ProgSmall1", "ProgTwo4"] + ([] if quick else ["ProgMixed3", "ProgSmall3", "ProgTwo2"]):
-        jobs.append((("twice", progs), dict(progs=progs, depth=2, mode="twice"), dict(workers=1, timeout=1800), 300 if quick else 0))
-    jobs.append((("round", "ProgEmpty1"), dict(progs="ProgEmpty1", depth=3, mode="round"), dict(workers=1, timeout=1800), 150 if quick else 0))
-    # (3) random walks over all programs
-    nsim, dsim = (4, 12) if quick else (10, 16)
+    jobs = []   # (key, cfg kwargs, tlc kwargs, cap per program)
+    # (1) BFS depth 1: every invocation of the pools on the initial sandbox, for ten programs
+    jobs.append((("bfs", "ProgsBfs"), dict(progs="ProgsBfs", depth=1, mode="bfs"), dict(workers=2, timeout=1800), CAPS if quick else None))
+    # (2) the same place written twice / new --out and back
+    jobs.append((("twice", "ProgsTwice"), dict(progs="ProgsTwice", depth=2, mode="twice"), dict(workers=2, timeout=1800),
+                 {"*": 150} if quick else None))
+    if not quick:
+        jobs.append((("twice", "ProgsTwiceMore"), dict(progs="ProgsTwiceMore", depth=2, mode="twice"), dict(workers=2, timeout=1800), None))
+    jobs.append((("round", "ProgEmpty1"), dict(progs="ProgEmpty1", depth=3, mode="round"), dict(workers=1, timeout=1800),
+                 {"*": 100} if quick else None))
+    # (3) random walks over all sixteen programs
+    nsim, dsim, num = (3, 12, 25) if quick else (10, 16, 120)
     for k in range(nsim):
         jobs.append((("sim", k), dict(progs="ProgsAll", depth=dsim, mode="sim"),
-                     dict(workers=1, timeout=1800, simulate="num=%d" % (25 if quick else 120), depth=dsim + 2, seed=ctx.seed * 100 + k), 0))
+                     dict(workers=1, timeout=1800, simulate="num=%d" % num, depth=dsim + 2, seed=ctx.seed * 100 + k), None))
 
     def one(job):
         key, cfg, kw, cap = job
@@ -82,13 +87,25 @@ def generate(ctx, quick, rnd):
         ctx.extra["gen_%s_generated" % name] = len(cs)
         if not cs:
             raise core.Infra("generator %s produced nothing (vacuous)" % (key,))
-        if cap and len(cs) > cap:
-            rnd.shuffle(cs)
-            cs = cs[:cap]
+        groups = {}
         for c in cs:
-            c["tag"] = ":".join(str(x) for x in key)
-        ctx.extra["gen_%s" % name] = len(cs)
-        cases += cs
+            groups.setdefault(prog_name(c["P"]), []).append(c)
+        kept = []
+        for pname in sorted(groups):
+            g = groups[pname]
+            n = None if cap is None else cap.get(pname.split(":")[0], cap.get("*"))
+            if n and (pname.endswith(":p1+p1") or pname.endswith(":folder+out")):
+                n = 60      # programs whose flag names clash: every flag-parsing command is the same case
+            if n and len(g) > n:
+                rnd.shuffle(g)
+                g = g[:n]
+            for c in g:
+                c["tag"] = "%s:%s" % (key[0], pname)
+            if key[0] == "bfs":
+                ctx.extra["bfs_%s" % pname] = "%d of %d" % (len(g), len(groups[pname]))
+            kept += g
+        ctx.extra["gen_%s" % name] = len(kept)
+        cases += kept
     return cases
 
 
@@ -153,6 +170,8 @@ def report(ctx, cases, findings, seen_sigs):
             raise core.Infra("trace line is not an invocation of the model (case %d invocation %d): %s" % (ln["h"], ln["i"], json.dumps(ln.get("inv"))))
         for p in v["bad"]:
             sig = "%s/%s/%s/%s" % (p, v["cmd"] or "none", v["why"], v["mg"])
+            if v["class"] == "clash":      # one defect whatever the command: the flag set is built before anything else
+                sig = "%s/%s" % (p, v["why"])
             seen_sigs[sig] = seen_sigs.get(sig, 0) + 1
             if seen_sigs[sig] > 1:
                 continue
@@ -212,9 +231,9 @@ def run(ctx):
                 "walks over 16 programs; each invocation runs generator.App.Run in a child process inside a sandbox directory; "
                 "outcome, App.Out, stdout and the whole tree after every invocation are judged by TraceCli; distinct by program "
                 "+ invocation list")
-    for tag in ("bfs:ProgMixed3", "twice:ProgSmall1", "sim:0"):
+    for tag in ("bfs:App2", "twice:App1", "sim:"):
         for c in cases:
-            if c["tag"] == tag:
+            if c["tag"].startswith(tag):
                 ctx.sample({"tag": tag, "argv": [[i["gfa"], i["cmd"]] + [(t["n"], t["form"], t["v"]) for t in i["toks"]] for i in c["invs"][:4]]})
                 break
     ctx.assumptions += [
@@ -226,7 +245,7 @@ def run(ctx):
 
 def selftest(ctx, vh, cases):
     """Corrupt one observed field of an accepted trace; TLC must reject exactly that line."""
-    pick = [c for c in cases if c["tag"].startswith("sim")][:2]
+    pick = [c for c in cases if c["tag"].startswith("sim")][:6]
     raw = execute(ctx, vh, pick, "selftest-exec")
     rows = [json.loads(x) for x in raw]
 
